@@ -772,6 +772,14 @@ class PolytopeCheck(Check):
                 levels[i] += 1
                 # what the caller looks at after the subdivision is part of the history: getters may fill caches
                 ops.append({"op": "divide", "inst": i, "observe": rng.choice(["all", "all", "nodes", "none", "none"])})
+                if ops[-1]["observe"] == "none" and rng.random() < 0.5:
+                    # ... and the first thing asked of the new level may be a handful of leading nodes
+                    if kind == "cube4D" and rng.random() < 0.5:
+                        ops.append({"op": "half", "inst": i, "frac": "abs", "n_abs": rng.choice([1, 2, 3, 7]),
+                                    "projection": rng.random() < 0.5})
+                    else:
+                        ops.append({"op": "nodes", "inst": i, "frac": "abs", "n_abs": rng.choice([1, 2, 3, 5, 7, 12]),
+                                    "projection": rng.random() < 0.5})
             elif r < 0.6:
                 ops.append({"op": "nodes", "inst": i, "frac": rng.choice([None, None, 0.0, 0.3, 0.7, 1.0, "abs", "abs"]),
                             "n_abs": rng.choice([1, 2, 3, 5, 12, rng.randint(1, 60)]),
